@@ -70,6 +70,7 @@ fn life_jobs(props: &[&'static str], thorough: bool, read_faults: bool) -> Vec<J
         c.max_faults = 2;
         v.push(w(rf(c), props, 3, true));
     }
+    v.push(w(rf(scen::s_overlap()), props, if thorough { 3 } else { 2 }, true));
     for k in HIST_KINDS {
         for age in if thorough { vec![0u64, 59, 61, 1_000_000] } else { vec![0u64, 61] } {
             for two in [false, true] {
